@@ -19,7 +19,6 @@ import (
 	"github.com/ngicks/gokugen/def"
 	"github.com/ngicks/gokugen/dispatcher/workerpool"
 	"github.com/ngicks/gokugen/repository"
-	"github.com/ngicks/gokugen/repository/inmemory"
 	"github.com/ngicks/gokugen/scheduler"
 	"github.com/ngicks/und/option"
 
@@ -207,7 +206,8 @@ type startReq struct {
 type sysRun struct {
 	r      *rand.Rand
 	clock  *vclock.Clock
-	core   *inmemory.InMemoryRepository
+	core   def.Repository
+	closer func()
 	obs    *repository.Repository
 	proxy  *sproxy
 	sched  *scheduler.Scheduler
@@ -452,13 +452,18 @@ func (d *dproxy) Dispatch(ctx context.Context, fetcher func(ctx context.Context)
 }
 
 func newSysRun(r *rand.Rand, stats map[string]int, faults bool) *sysRun {
+	return newSysRunOn("inmem", r, stats, faults)
+}
+
+// newSysRunOn: the pipeline over the in-memory or the ent/SQLite repository (the latter has no model at pipeline level:
+// its suites evaluate the trace predicates only)
+func newSysRunOn(impl string, r *rand.Rand, stats map[string]int, faults bool) *sysRun {
 	s := &sysRun{r: r, stats: stats, now: cq.Epoch, gates: map[string]chan struct{}{}, workOf: map[string]string{},
 		starts: make(chan workStart, 16), startReqs: make(chan startReq, 64), running: map[string]bool{}, accepted: map[string]bool{},
 		stepDone: make(chan stepOutcome, 1), stepCancel: map[string]context.CancelFunc{}, faults: faults, faultsOn: faults}
 	s.clock = vclock.New(cq.Epoch)
-	s.core = inmemory.NewInMemoryRepository()
-	s.core.VerifSetClock(s.clock)
-	s.core.VerifSetIdGen(func() string { s.idCtr++; return fmt.Sprintf("t%d", s.idCtr) })
+	su := newSut(impl, s.clock, &s.idCtr, "")
+	s.core, s.closer = su.repo, su.closer
 	fr := &faultyRepo{Repository: s.core}
 	ht := repository.NewMutationHookTimer()
 	ht.VerifSetClock(s.clock)
@@ -1065,6 +1070,9 @@ func (s *sysRun) run(length int) {
 	}
 	s.disp.WorkerPool.Remove(64)
 	s.disp.WorkerPool.Kill()
+	if s.closer != nil {
+		s.closer()
+	}
 }
 
 func sysMain(args []string) {
@@ -1078,6 +1086,7 @@ func sysMain(args []string) {
 	out := fs.String("out", "", "output .v")
 	statsOut := fs.String("stats", "", "stats json")
 	coreFaults := fs.Bool("core-faults", false, "with -faults: a failing MarkAsDispatched is the CORE repository's failure (before or after taking effect), seen by the observable wrapper as well; there is no model for this placement: only the trace predicates are evaluated")
+	impl := fs.String("impl", "inmem", "core repository under the hook timer: inmem | ent (ent: predicate-only suites)")
 	cancelInFetch := fs.Bool("cancel-in-fetch", false, "the dispatch context is sometimes cancelled right after the fetcher's GetById succeeded (the run then ends cancelled without starting); no model label exists for that: only the trace predicates are evaluated")
 	userHookFaults := fs.Bool("user-hook-faults", false, "exploration (not used by registered suites): with -faults, the hook's nested GetNext may also fail during the user's own mutations; see DESIGN.md §6, observation O3")
 	exhaustive := fs.Int("exhaustive", 0, "number of base scenarios; every placement of one fault (error-without-effect, error-after-effect, hook GetNext failure) over the scheduler's calls of each is run (ignores -n)")
@@ -1145,7 +1154,7 @@ func sysMain(args []string) {
 		} else if *volatile {
 			s = newVSysRun(r, stats, *scribble)
 		} else {
-			s = newSysRun(r, stats, *faults)
+			s = newSysRunOn(*impl, r, stats, *faults)
 			s.userHookFaults = *userHookFaults
 			s.proxy.coreFaults = *coreFaults
 			s.cancelInFetch = *cancelInFetch
